@@ -14,7 +14,7 @@ import (
 func init() { Registry["C02"] = c02 }
 
 func c02(c *core.Ctx) map[string]interface{} {
-	c.Explanation = "Static check of the session-lifecycle drivers and of main's test-mode loops (C02): the structural part of 'every UE's establish / service request / release / deregister history is accepted and no COUNT is reused'. Decided: (R0.nilglobal) as for C03; (R2.script) on every path of EstablishPDU, ServiceRequest, ReleasePDU and DeregisterUE the N2 sends are exactly the scripted messages in order, each protected with header type 1 or 2, securityContextAvailable=true and newSecurityContext=false (a second 'true' would restart COUNT at 0 under the same key), each outcome message sent only after a receive since the previous send; (R2.ids) every wrapper receives the ids of the driver's own UE in their roles, every NAS message is protected with that UE's context, and after a new InitialUEMessage (a new UE-associated NG connection) AmfUeNgapId is learned again from the AMF before it is used; (R2.pos) positional reads of a received IE list are justified by the mandatory leading IEs of TS 38.413 9.2; (R2.psi) inside one driver the PDU session identity of the NAS message and of the NGAP response derive from one definition, without a lossy narrowing, and fit PDUSessionID (0..255); (R2.report) EstablishPDU returns DecodePDUSessionNASPDU / DecodePDUSessionResourceSetupRequestTransfer of the setup item it received and main registers exactly these three values with the data plane; (R2.clamp) every ueList[i] / pduList[i] in main is inside a loop whose bound is provably <= the number of registrations (equal bound, len of a list filled once per registration, or stgutg.Min of such), service and release bounds are <= the establishment bound; (R2.min) stgutg.Min returns the smaller argument on every path; (R2.order) per mode: connect < NG setup < register* < establish* < service* < release* < deregister*, never backwards; (components) the rule sets of C06 (COUNT advanced once per protected message, single writer), C12 (extraction of UE IP / TEID / UPF IP), C13 (builders) and C16 (distinct UE identities) are part of this check. (R9.mt/R9.ctor/R9.acc) message-type constants, the emulator's NAS constructors and the bit layout of the IE accessors they use are checked as in C09. (R19.oneread) no procedure waits in a read loop whose end the received bytes decide (a procedure that can wait for ever does not complete the lifecycle). NOT decided: acceptance by a real AMF/SMF for every runtime value; timing (the drivers pace themselves with sleeps); that the AMF's answers are of the expected type."
+	c.Explanation = "Static check of the session-lifecycle drivers and of main's test-mode loops (C02): the structural part of 'every UE's establish / service request / release / deregister history is accepted and no COUNT is reused'. Decided: (R0.nilglobal) as for C03; (R2.script) on every path of EstablishPDU, ServiceRequest, ReleasePDU and DeregisterUE the N2 sends are exactly the scripted messages in order, each protected with header type 1 or 2, securityContextAvailable=true and newSecurityContext=false (a second 'true' would restart COUNT at 0 under the same key), each outcome message sent only after a receive since the previous send; (R2.ids) every wrapper receives the ids of the driver's own UE in their roles, every NAS message is protected with that UE's context, and after a new InitialUEMessage (a new UE-associated NG connection) AmfUeNgapId is learned again from the AMF before it is used; (R2.pos) positional reads of a received IE list are justified by the mandatory leading IEs of TS 38.413 9.2; (R2.psi) inside one driver the PDU session identity of the NAS message and of the NGAP response derive from one definition, without a lossy narrowing, and fit PDUSessionID (0..255); (R2.report) EstablishPDU returns DecodePDUSessionNASPDU / DecodePDUSessionResourceSetupRequestTransfer of the setup item it received and main registers exactly these three values with the data plane; (R2.clamp) every ueList[i] / pduList[i] in main is inside a loop whose bound is provably <= the number of registrations (equal bound, len of a list filled once per registration, or stgutg.Min of such), service and release bounds are <= the establishment bound; (R2.min) stgutg.Min returns the smaller argument on every path; (R2.order) per mode: connect < NG setup < register* < establish* < service* < release* < deregister*, never backwards; (components) the rule sets of C06 (COUNT advanced once per protected message, single writer), C12 (extraction of UE IP / TEID / UPF IP), C13 (builders) and C16 (distinct UE identities) are part of this check. (R9.mt/R9.ctor/R9.acc) message-type constants, the emulator's NAS constructors and the bit layout of the IE accessors they use are checked as in C09. (R19.oneread) no procedure waits in a read loop whose end the received bytes decide (a procedure that can wait for ever does not complete the lifecycle). (how) R2.script, R2.ids, R2.report read the evaluator model of the drivers (see C01); (R2.psi across drivers) the PDU session identity each later driver hands to NGAP and NAS is the one EstablishPDU derives: compared by name after renaming the UE parameter, and when spelled differently folded on sample SUPI numbers inside the checker's own expression domain - only a sample that separates them (printed) makes a violation. NOT decided: acceptance by a real AMF/SMF for every runtime value; timing (the drivers pace themselves with sleeps); that the AMF's answers are of the expected type."
 	c.Assumptions = []string{"ManageError terminates the process when its error argument is non-nil (C19)", "a conformant AMF sends the IEs of a message in the order of TS 38.413 9.2 (clause 10.3.6)"}
 	r0nilglobal(c, ngapEntries(c)...)
 	models := map[string]*drvModel{}
